@@ -151,6 +151,27 @@ package consul
 //@   ensures nopanic
 //@   // accepted means: fabio's parser takes it, it is exactly ONE 'route add' definition, and a table can be built from it
 //@   ensures result == nil ==> accepts(cmd) && singleAdd(cmd) && tableAccepts(cmd)
+//@   // ... and the parser reads back from it exactly what it was generated from (the 'denote' clause of C14):
+//@   ensures result == nil ==> defService(cmd) == service && defSrc(cmd) == src && defDst(cmd) == dst
+//@   ensures result == nil ==> defWeight(cmd) == (weight == "" ? 0.0 : parseFloatVal(weight, 64))
+//@   ensures result == nil && !(len(tags) == 1 && tags[0] == "") ==> defTagsLen(cmd) == len(tags) && forall i int :: 0 <= i && i < len(tags) ==> defTag(cmd, i) == tags[i]
+//@   ensures result == nil ==> forall j int, k string :: 0 <= j && j < len(opts) && k == optKey(opts[j]) ==> defOptHas(cmd, k)
+//@   // ... and the value of the last word given for a key
+//@   ensures result == nil ==> forall j int, k string :: 0 <= j && j < len(opts) && k == optKey(opts[j]) && (forall j2 int :: j < j2 && j2 < len(opts) ==> optKey(opts[j2]) != k) ==> defOpt(cmd, k) == optVal(opts[j])
+//@   loop 2 invariant forall j int, k string :: 0 <= j && j <= rangeindex && k == optKey(opts[j]) && (forall j2 int :: j < j2 && j2 <= rangeindex ==> optKey(opts[j2]) != k) ==> want[k] == optVal(opts[j])
+//@   loop 3 invariant forall j int, k string :: 0 <= j && j < len(opts) && k == optKey(opts[j]) && (forall j2 int :: j < j2 && j2 < len(opts) ==> optKey(opts[j2]) != k) ==> want[k] == optVal(opts[j])
+//@   loop 2 invariant forall k string :: hasKey(d.Opts, k) ==> d.Opts[k] == defOpt(cmd, k)
+//@   loop 3 invariant forall k string :: hasKey(d.Opts, k) ==> d.Opts[k] == defOpt(cmd, k)
+//@   at "_, err = route.NewTable(bytes.NewBufferString(cmd))" assert forall k string :: hasKey(want, k) ==> d.Opts[k] == want[k]
+//@   loop 1 invariant forall i int :: 0 <= i && i <= rangeindex ==> d.Tags[i] == tags[i]
+//@   loop 2 invariant want != nil && fresh(want) && forall j int, k string :: 0 <= j && j <= rangeindex && k == optKey(opts[j]) ==> hasKey(want, k)
+//@   loop 3 invariant want != nil && fresh(want) && forall j int, k string :: 0 <= j && j < len(opts) && k == optKey(opts[j]) ==> hasKey(want, k)
+//@   loop 3 invariant forall k string :: visited(k) ==> hasKey(d.Opts, k) && d.Opts[k] == want[k]
+//@   at "_, err = route.NewTable(bytes.NewBufferString(cmd))" assert forall k string :: hasKey(want, k) ==> hasKey(d.Opts, k)
+//@   at "_, err = route.NewTable(bytes.NewBufferString(cmd))" assert forall j int, k string :: 0 <= j && j < len(opts) && k == optKey(opts[j]) ==> hasKey(d.Opts, k)
+//@   // building the expected options leaves the parsed ones alone
+//@   loop 2 invariant want != d.Opts && forall k string :: hasKey(d.Opts, k) == defOptHas(cmd, k)
+//@   loop 3 invariant forall k string :: hasKey(d.Opts, k) == defOptHas(cmd, k)
 //@
 //@ // what follows the tag prefix, without surrounding blanks
 //@ spec fun tagRest(s string, prefix string) string = trimSpace(trimSpace(s)[len(prefix):])
@@ -185,13 +206,22 @@ package consul
 //@   requires r.svc != nil && buildReady()
 //@   assigns bufOf, scanFailed, builtFrom, mapsOf(map[string]route.Routes), elems(*route.Route), route.Route.Targets, route.Route.wTargets, elems(*route.Target), route.Target.Weight, route.Target.FixedWeight, route.Target.accessRules, elems(interface{}), mapsOf(map[string][]interface{}), ioWrites, lastWrite
 //@   ensures nopanic
+//@   // every emitted command denotes the registered service ...
+//@   ensures forall i int :: 0 <= i && i < len(result) ==> defService(result[i]) == r.svc.ServiceName
+//@   // ... and, at the point where it is emitted, the prefix of its tag, the destination and weight chosen for it, the
+//@   // service's plain tags and the tag's option words
+//@   at "config = append(config, cfg)" assert @C14 defService(cfg) == r.svc.ServiceName && defSrc(cfg) == route && defDst(cfg) == dst && defWeight(cfg) == (weight == "" ? 0.0 : parseFloatVal(weight, 64))
+//@   at "config = append(config, cfg)" assert @C14 !(len(svctags) == 1 && svctags[0] == "") ==> defTagsLen(cfg) == len(svctags) && forall i int :: 0 <= i && i < len(svctags) ==> defTag(cfg, i) == svctags[i]
+//@   at "config = append(config, cfg)" assert @C14 forall j int, k string :: 0 <= j && j < len(ropts) && k == optKey(ropts[j]) ==> defOptHas(cfg, k)
 //@   // validate-before-emit: whatever the registration contains, only commands the parser accepts are emitted
 //@   ensures forall i int :: 0 <= i && i < len(result) ==> accepts(result[i]) && singleAdd(result[i]) && tableAccepts(result[i])
 //@   loop 1 invariant (cap(svctags) == 0 || fresh(svctags)) && (cap(routetags) == 0 || fresh(routetags)) && (cap(svctags) == 0 || cap(routetags) == 0 || ref(svctags) != ref(routetags))
 //@   loop 2 invariant cap(config) == 0 || fresh(config)
-//@   loop 2 invariant forall i int :: 0 <= i && i < len(config) ==> accepts(config[i]) && singleAdd(config[i]) && tableAccepts(config[i])
+//@   loop 2 invariant cap(config) == 0 || cap(svctags) == 0 || ref(config) != ref(svctags)
+//@   loop 3 invariant cap(config) == 0 || cap(svctags) == 0 || ref(config) != ref(svctags)
+//@   loop 2 invariant forall i int :: 0 <= i && i < len(config) ==> accepts(config[i]) && singleAdd(config[i]) && tableAccepts(config[i]) && defService(config[i]) == r.svc.ServiceName
 //@   loop 3 invariant (cap(config) == 0 || fresh(config)) && (cap(ropts) == 0 || fresh(ropts)) && (cap(config) == 0 || cap(ropts) == 0 || ref(config) != ref(ropts))
-//@   loop 3 invariant forall i int :: 0 <= i && i < len(config) ==> accepts(config[i]) && singleAdd(config[i]) && tableAccepts(config[i])
+//@   loop 3 invariant forall i int :: 0 <= i && i < len(config) ==> accepts(config[i]) && singleAdd(config[i]) && tableAccepts(config[i]) && defService(config[i]) == r.svc.ServiceName
 //@   // the service's plain tags and the route options are put into the command through strconv.Quote: what a tag
 //@   // contains (quotes, line breaks) can never end the quoted field early and smuggle in grammar of its own
 //@   at "cfg += \" tags \" + strconv.Quote(strings.Join(svctags, \",\"))" assert exists p string :: cfg == p + (" tags " + strQuote(joinSpec(svctags, ",", len(svctags))))
